@@ -344,10 +344,30 @@ def report_violations(agg, max_reports=int(os.environ.get('VERIF_MAX_REPORTS', 4
     known = load_known()
     nviol = nknown = 0
     seen = set()
+    nmin = 0
     for item in agg.violations:
         if nviol >= max_reports:
             nviol += 1
             continue
+        if nmin >= 10:
+            # enough minimised examples: the rest is matched against the
+            # known findings on the unminimised plan, and reported with it
+            v0 = item['violations'][0]
+            k = match_known(known, v0['clause'], v0['observable'], item['plan'])
+            if k is not None:
+                nknown += 1
+                continue
+            try:
+                r1 = run_plan_fresh(item['plan'])
+                path, v = write_replay(item['plan'], shrink.obs_class(v0['observable']), r1)
+            except Exception:
+                agg.errors.append('replay of unminimised plan failed:\n' + traceback.format_exc())
+                continue
+            nviol += 1
+            print('VIOLATION property=%s replay=%s' % (PROP, path))
+            print('  clause=%s observable=%s (not minimised)' % (v['clause'], v['observable']))
+            continue
+        nmin += 1
         try:
             plan, target = minimise(item)
             r1 = run_plan_fresh(plan)
